@@ -14,6 +14,12 @@
 // list the literals (entries of type "comment", which the rule also lists for free-standing comments, are
 // skipped) in source order with their RAW source text and kind.
 //
+// The named spellings share ONE rule object: it is added to an object schema whose two properties both use
+// `{enum: @E}` and to a scalar schema; Values() / GetAST() of the rule are read before AND after these schemas
+// were checked and must not change. Every probe verdict is also compared with membership by (decoded text,
+// kind) (component C02-enum), and a dedicated stream (enum.go: runEnumTwins, C02-enum) uses inline lists with twin
+// items of equal text and different kind (`"1"` / 1, `"null"` / null …) in both orders.
+//
 // (b) C18-regex: a pattern P from a printable-ASCII grammar (literals incl. `"`, classes, negated classes, `.`,
 // \d \w \s, alternation, groups, quantifiers ? * + {n} {n,m} and lazy forms, escaped slash `\/`, escaped quote
 // `\"`, escaped backslash `\\`, é, optional ^ … $) as regex type text `/P/` + optional trailing text, added as
@@ -82,13 +88,17 @@ func Run(args []string) {
 	rep := vh.NewReport("c18-named", "enum: lists of 1-5 scalars of all kinds (escapes, planted duplicates / near-duplicates) as named rule text with "+
 		"random layout and comments vs the same list inline, ~15 probe documents each; regex: patterns from a printable-ASCII grammar as /P/ + trailing "+
 		"text added as @T (used through type rule and as shortcut) vs inline {regex}, ~12 probe strings each with random JSON escape forms. "+
-		"nontrivial = enum list with >= 2 items or a comment; pattern with an operator (class, group, quantifier, alternation or escape)")
+		"twins (C02-enum): inline lists with items of equal text and different kind in both orders, probes of both kinds, membership by (decoded text, kind). "+
+		"nontrivial = enum list with >= 2 items or a comment; every twins case; pattern with an operator (class, group, quantifier, alternation or escape)")
 	only := ""
 	if len(args) > 0 {
 		only = args[0]
 	}
 	if only == "" || only == "enum" {
 		runEnum(rep)
+	}
+	if only == "" || only == "twins" {
+		runEnumTwins(rep)
 	}
 	if only == "" || only == "regex" {
 		runRegex(rep)
